@@ -32,7 +32,7 @@ type CallCase struct {
 var callParams = []string{"pa", "pb", "pc"}
 
 // names that must not be visible after the calls/cases that created them
-var callProbeNames = []string{"pa", "pb", "pc", "la", "li", "lx", "mq", "ma", "loc1", "loc2", "ga", "ca", "va", "rn", "en", "on", "na", "ra", "loc3", "da", "dx", "dq", "oa", "qa", "ma1", "ma2", "mo", "mb1", "mb2", "qb", "loc4", "loc5", "wn", "wx", "lq", "lm1", "lother", "lb", "lbo", "ml1", "mlo", "wa", "t1", "t2", "t3", "fa", "fl", "fr", "ns", "nc"}
+var callProbeNames = []string{"pa", "pb", "pc", "la", "li", "lx", "mq", "ma", "loc1", "loc2", "ga", "ca", "va", "rn", "en", "on", "na", "ra", "loc3", "da", "dx", "dq", "oa", "qa", "ma1", "ma2", "mo", "mb1", "mb2", "qb", "loc4", "loc5", "wn", "wx", "lq", "lm1", "lother", "lb", "lbo", "ml1", "mlo", "wa", "t1", "t2", "t3", "fa", "fl", "fr", "ns", "nc", "sa"}
 
 func (c *CallCase) program() string {
 	var sb strings.Builder
@@ -88,6 +88,8 @@ function fresh(fa) { if (fl is unknown) { fr = "fresh" } else { fr = "stale" }
  return fr }
 function nextstr(ns) { for (nc in "xyz") { if (nc == "y") { NX = ns
  next } } }
+function shadow(sa, G) { G = [sa]
+ return G }
 function proc(qb) { loc4 = clobber(qb)
  loc5 = fid(qb) }
 function walk(wn) { if (wn is array) { for (wx in wn) { walk(wx) } } else { return wn } }
@@ -134,6 +136,14 @@ $.op == "fresh" { print step, fresh($.a[0]) }
 $.op == "fresh2" { print step, fresh($.a[0]), fresh($.a[1]) }
 $.op == "nextstr" { print step, "beforestr"
  nextstr($.a[0])
+ print step, "NOT REACHED" }
+$.op == "shadow" { print step, shadow($.a[0]), G }
+$.op == "clobmiss" { r1 = clobber($.a[7])
+ r2 = clobber($.nokey)
+ r3 = clobber($.a[0].deep.er)
+ print step, r1, r2, r3, $.a.length(), $.nokey, $.a[0] }
+$.op == "nextexpr" { print step, "beforex"
+ xx = [1, [donext2($.a[0]), 2]] + 1
  print step, "NOT REACHED" }
 $.op == "proc" { print step, proc($.a[0]) }
 $.op == "walk" { print step, walk($.a[0]) }
@@ -324,6 +334,20 @@ func (c *CallCase) model() (lines []string, exited bool, ok bool) {
 			emit("fresh fresh")
 		case "nextstr":
 			emit("beforestr")
+			NX = arg(0)
+			skipEOR = true
+		case "shadow":
+			// the omitted second parameter is a fresh local named like the global G
+			emit(p(arr(arg(0))) + " " + p(G))
+		case "clobmiss":
+			// missing index / member / chain passed to a function that assigns its parameter: the caller's data stay as they are
+			a0 := arg(0)
+			if a0.Kind != 'z' && a0.Kind != 'o' {
+				return nil, false, false
+			}
+			emit("99 99 99 " + fmt.Sprint(len(args)) + " null " + p(a0))
+		case "nextexpr":
+			emit("beforex")
 			NX = arg(0)
 			skipEOR = true
 		case "proc":
@@ -587,8 +611,8 @@ func genCallArg(t *Tape) string {
 }
 
 func genCallOp(t *Tape) CallOp {
-	ops := []string{"id0", "id1", "id2", "id3", "id4", "loopret", "mklocal", "setg", "readg", "clobber", "viaother", "rec", "mutual", "donext", "donext2", "noret", "outer", "mexpr", "mblock", "pat", "proc", "walk", "mlit", "litmatch", "litblock", "awkloc0", "awkloc1", "awkloc2", "fresh", "fresh2", "nextstr"}
-	w := []int{1, 2, 2, 2, 2, 3, 3, 2, 2, 3, 2, 2, 1, 3, 2, 2, 2, 4, 3, 2, 3, 2, 3, 3, 2, 1, 2, 2, 4, 2, 2}
+	ops := []string{"id0", "id1", "id2", "id3", "id4", "loopret", "mklocal", "setg", "readg", "clobber", "viaother", "rec", "mutual", "donext", "donext2", "noret", "outer", "mexpr", "mblock", "pat", "proc", "walk", "mlit", "litmatch", "litblock", "awkloc0", "awkloc1", "awkloc2", "fresh", "fresh2", "nextstr", "shadow", "clobmiss", "nextexpr"}
+	w := []int{1, 2, 2, 2, 2, 3, 3, 2, 2, 3, 2, 2, 1, 3, 2, 2, 2, 4, 3, 2, 3, 2, 3, 3, 2, 1, 2, 2, 4, 2, 2, 3, 3, 2}
 	op := ops[t.Weighted(w...)]
 	var args []string
 	switch op {
@@ -603,6 +627,11 @@ func genCallOp(t *Tape) CallOp {
 	case "mlit", "litmatch", "litblock":
 		// subjects never put a container against a scalar literal (== on containers is an error)
 		args = []string{[]string{"[]", "[0,0]", "[1,[2,3]]", "[5,9]", "[0,1]", "[7]", "[1,2,3]", "7", `"s"`, "null", "[3,9]"}[t.Draw(11)]}
+	case "clobmiss":
+		args = []string{[]string{"null", `{"k":1}`, "{}"}[t.Draw(3)]}
+		for k := t.Draw(4); k > 0; k-- {
+			args = append(args, genCallArg(t))
+		}
 	case "walk":
 		args = []string{[]string{"[1,[2,3]]", "5", `"leaf"`, "[]", "[[1],[2]]", "null"}[t.Draw(6)]}
 	default:
@@ -619,7 +648,7 @@ func genCallOp(t *Tape) CallOp {
 // return or next (a frame, a counter, a slot) accumulates past every fixed budget.
 func genVeryLongCase(t *Tape) *CallCase {
 	c := &CallCase{Arity: t.Draw(4), LoopKind: []string{"for", "while", "forin", "match", "matchblock", "if", "forinstr"}[t.Draw(7)]}
-	kinds := []string{"donext", "id1", "loopret", "mexpr", "mblock", "noret", "proc", "nextstr", "donext2", "clobber", "mlit"}
+	kinds := []string{"donext", "id1", "loopret", "mexpr", "mblock", "noret", "proc", "nextstr", "donext2", "clobber", "mlit", "nextexpr", "nextexpr", "litblock"}
 	dom := kinds[t.Draw(len(kinds))]
 	n := 110000 + t.Draw(30000)
 	mk := func(k string) CallOp {
